@@ -391,11 +391,11 @@ func main() {
 	}
 	corpus := []Case{
 		{Kind: "add", Good: true, Rs: nil, R: [2]int64{4, 7}},
-		{Kind: "add", Good: true, Rs: [][2]int64{{0, 3}, {8, 11}}, R: [2]int64{4, 7}},      // fills the gap: one region
+		{Kind: "add", Good: true, Rs: [][2]int64{{0, 3}, {8, 11}}, R: [2]int64{4, 7}},            // fills the gap: one region
 		{Kind: "add", Good: true, Rs: [][2]int64{{0, 3}, {8, 11}, {20, 23}}, R: [2]int64{2, 30}}, // swallows
-		{Kind: "add", Good: true, Rs: [][2]int64{{0, 3}, {8, 11}}, R: [2]int64{9, 10}},     // contained
-		{Kind: "add", Good: true, Rs: [][2]int64{{4, 7}}, R: [2]int64{0, 1}},               // left, not adjacent
-		{Kind: "add", Good: true, Rs: [][2]int64{{4, 7}}, R: [2]int64{0, 3}},               // left, adjacent
+		{Kind: "add", Good: true, Rs: [][2]int64{{0, 3}, {8, 11}}, R: [2]int64{9, 10}},           // contained
+		{Kind: "add", Good: true, Rs: [][2]int64{{4, 7}}, R: [2]int64{0, 1}},                     // left, not adjacent
+		{Kind: "add", Good: true, Rs: [][2]int64{{4, 7}}, R: [2]int64{0, 3}},                     // left, adjacent
 		{Kind: "super", Rs: [][2]int64{{8, 11}, {0, 3}, {4, 30}}},
 		{Kind: "writer", Dest: 4, Off: 0, Pieces: [][]byte{{1, 2}, {3, 4}}},
 		{Kind: "writer", Dest: 2, Off: 1, Pieces: [][]byte{{1}, {2, 3}, {4}}},
